@@ -203,6 +203,8 @@ class FunctionVC:
                 t, sub, defs = self.eval_clause(name, ctx, bindings)
                 self.add(Obligation(self.oid(name), kind, And_(ctx.pc, *defs), t, prop or self.prop,
                                     meta={'clause': C.clause_source_name(ccls, name), 'path': 'normal'}))
+            if getattr(self, 'on_normal_exit', None) is not None:
+                self.on_normal_exit(self, ctx)
             self.add(Obligation(self.oid('canary-normal'), 'canary', ctx.pc, False, self.prop))
         else:
             self.notes.append('no normal path')
